@@ -127,7 +127,7 @@ def build_stmt(kind_name, req, present, extra, kinds):
             if nm == "t" and extra.get("tkind") == "long":
                 # a text as wide as the 40-column screen (the runtime's text parameter holds 80 characters whatever the
                 # program's string size is)
-                long_t = "PRESS ANY KEY TO START THE GAME - ENJOY!"
+                long_t = "Press any key to START the game - Enjoy!"
                 o[nm] = ("str", long_t) if okind not in ("expr", "tmp") else ("bin", "+", ("str", long_t[:24]), ("str", long_t[24:]))
             elif nm in ("s", "t") and kind_name in ("HDRAW", "PLAY") or (nm == "t" and extra.get("tkind") == "str"):
                 o[nm] = str_operand(okind, k)
@@ -229,6 +229,10 @@ def run_case(case):
     prog = [(10, SETUP), (20, stmts)]
     if case.get("in_if"):
         prog = [(10, SETUP), (20, [("if", ("bin", "=", ("var", "A"), X.num(3)), ("stmts", stmts), [], None)])]
+    if case.get("openline"):
+        # an earlier line ends in a string constant without closing quote (legal at the end of a line): the quotation marks
+        # of the lines behind it still pair up the way each line pairs them
+        prog.insert(1, (15, [("let", ("var", "Q$"), ("ostr", "it's open"), False)]))
     if case.get("data"):
         # the program also holds DATA items spelled exactly like the statement's numeric constants, one of them empty
         # (which makes the tool turn every DATA item into a string): constants elsewhere must not change with them
@@ -246,7 +250,7 @@ def run_case(case):
         grab(stmts)
         prog.append((30, [("data", [("n", v[1], list(v[2])) for v in lits[:4]] + [("u", ""), ("n", 7.0, ["7"])])]))
     text = render(prog)
-    obs["key"] = "%s|%s|%s|%s|%s" % (kind_name, present, sorted((k, str(v)) for k, v in extra.items()), kinds, str(case.get("in_if")) + ("+late" if case.get("late") else "") + ("+data" if case.get("data") else ""))
+    obs["key"] = "%s|%s|%s|%s|%s" % (kind_name, present, sorted((k, str(v)) for k, v in extra.items()), kinds, str(case.get("in_if")) + ("+late" if case.get("late") else "") + ("+data" if case.get("data") else "") + ("+open" if case.get("openline") else ""))
     obs["sets"]["forms"] = ["%s%s" % (kind_name, list(present))]
     cb = harness.run_cb(prog)
     conv = harness.convert(text, initialize_vars=case.get("init", False))
@@ -371,4 +375,4 @@ def cases(tier, seed):
                     n += 1
                     yield {"form": key, "pat": p, "extra": x, "kinds": ks, "init": n % 2 == 0, "in_if": n % 5 == 0,
                            "second": n % 7 == 0, "sample": n % 200 == 0, "late": n % 3 == 0,
-                           "data": n % 4 == 1}
+                           "data": n % 4 == 1, "openline": n % 5 == 2}
